@@ -5,9 +5,9 @@ From Coq Require Export List NArith ZArith Bool.
 Export ListNotations.
 Open Scope N_scope.
 
-Definition cp := N.                (* a Unicode code point *)
-Definition ustr := list cp.        (* a Python str *)
-Definition bytes := list N.        (* a Python bytes object, every element < 256 *)
+Notation cp := N (only parsing).                  (* a Unicode code point *)
+Notation ustr := (list N) (only parsing).         (* a Python str *)
+Notation bytes := (list N) (only parsing).        (* a Python bytes object, every element < 256 *)
 
 Definition max_cp : N := 1114111.  (* 0x10FFFF *)
 
@@ -104,7 +104,7 @@ Fixpoint dec_digits (fuel : nat) (n : N) (acc : ustr) : ustr :=
   | S f => if n <? 10 then (48 + n) :: acc
            else dec_digits f (n / 10) ((48 + n mod 10) :: acc)
   end.
-Definition str_of_N (n : N) : ustr := dec_digits (S (N.size_nat n)) n [].
+Definition str_of_N (n : N) : ustr := dec_digits (S (N.to_nat (N.size n))) n [].
 Definition str_of_Z (z : Z) : ustr :=
   match z with
   | Z0 => [48]
